@@ -43,10 +43,20 @@ class Gate(ConnFamily):
                 content = b"abc" if b"size=3" in line else b"xy" if b"size=2" in line else b""
                 c["evs"] = [["d", (line + b"\r\n" + content).hex()]] + [e for e in c["evs"] if e[0] != "d"]
                 c["up"] = True
-                c["cert"] = rng.choice([None, 0, 1, 2])
+                c["cert"] = rng.choice([None, 0, 1, 2, 3, 0, 3])
                 c["peer"] = rng.choice(["192.0.2.7", "2001:db8::5", "10.1.2.3"])
                 c["line"] = line.decode()
             yield c
+
+    def impl(self, case):
+        # self-contained history: when the peer presents certificate 0 or its look-alike 3, another connection
+        # presenting the other one of the pair comes first (anything cached per issuer/serial would now be stale)
+        if case.get("cert") in (0, 3) and "line" in case:
+            loop = get_loop()
+            first = dict(case)
+            first["cert"] = 3 - case["cert"]
+            loop.run_until_complete(sim.run_conn(loop, first))
+        return ConnFamily.impl(self, case)
 
     def oracle(self, case, obs):
         v = self.oracle_gated(case, obs) or self.oracle_once(case, obs)
@@ -121,7 +131,7 @@ class Chain(ConnFamily):
             if rng.random() < 0.2:
                 tail.insert(0, rng.choice([["l"], ["tick", 300]]))
             yield {"mw": True, "up": True, "handler": handler, "evs": evs + tail, "chain": comps, "line": line.decode(),
-                   "cert": rng.choice([None, 0, 1, 2]), "peer": rng.choice(["192.0.2.7", "2001:db8::5", "10.1.2.3"])}
+                   "cert": rng.choice([None, 0, 1, 2, 3, 0, 3]), "peer": rng.choice(["192.0.2.7", "2001:db8::5", "10.1.2.3"])}
 
     def _verdict(self, case):
         """reference: evaluate every component on its own, in order; first non-allow decides"""
